@@ -49,7 +49,10 @@ theorem eqoff_stepOp {r r' : Realm} (h : EqOff x r r') (hd : DIdle x r.ds) (op :
     EqOff x (r.stepOp op) (r'.stepOp op) := by
   cases op with
   | join k isLocal details roles cap =>
-    rw [stepOp_join, stepOp_join, cleanDetails_congr h]
+    rw [stepOp_join, stepOp_join, cleanDetails_congr h,
+      any_of_map_eq h.clients (fun c => c.key == k) (fun c => by rw [unstall_key])]
+    split
+    · exact h
     apply eqoff_addTasks
     refine EqOff.mk h.cfg h.broker h.ds ?_ h.ending h.testaments h.metaProcs h.metaS ?_ h.closedPeers h.tasks
       h.retries h.deferred h.inbox h.ghosts h.now h.pubCount h.rnd h.panic
@@ -73,7 +76,10 @@ theorem eqoff_stepOp {r r' : Realm} (h : EqOff x r r') (hd : DIdle x r.ds) (op :
     unfold unstall
     split <;> split <;> simp_all
   | drop k =>
-    rw [stepOp_drop, stepOp_drop, h.ending]
+    rw [stepOp_drop, stepOp_drop, h.ending,
+      any_of_map_eq h.clients (fun c => c.key == k) (fun c => by rw [unstall_key])]
+    split
+    · exact h
     split
     · exact h
     · eqoff_upd h
@@ -100,6 +106,8 @@ theorem idle_stepOp {r : Realm} (hd : DealerInv r.ds) (h : Idle x r) (op : Op) (
   cases op with
   | join k isLocal details roles cap =>
     rw [stepOp_join]
+    split
+    · exact h
     refine h.mono id (fun y hy => Or.inl hy) ?_
     unfold Realm.addTasks; simp
   | msg k m =>
@@ -111,6 +119,8 @@ theorem idle_stepOp {r : Realm} (hd : DealerInv r.ds) (h : Idle x r) (op : Op) (
   | buffer k => exact h.mono id (fun y hy => Or.inl hy) rfl
   | drop k =>
     rw [stepOp_drop]
+    split
+    · exact h
     split
     · exact h
     · refine h.mono id (fun y hy => Or.inl hy) ?_
